@@ -57,8 +57,14 @@ Definition missing_objs (objs : list string) : list string :=
 Definition predicted_missing : list string :=
   map (fun x => tag (x_owner x) (x_name x)) (filter (fun x => String.eqb (x_what x) "missing") exceptions).
 
-(* deviations of binding probes (none recorded) *)
-Definition probe_exceptions : list (string * string * Z) := [].
+(* deviations of probes: (id, what the pinned otto answers, finding class) *)
+Definition probe_exceptions : list (string * string * Z) :=
+  [ (* class 2: RegExp.prototype is not a RegExp; test/exec on it die of a Go nil dereference
+       (seen inside try/catch as a thrown non-Error value, outside it the panic escapes Run) *)
+    ("kind:RegExp.prototype", "[object RegExp],threw undefined,threw undefined,/undefined/", 2);
+    (* class 3: a bound function uses the ordinary [[HasInstance]] with its own prototype
+       instead of delegating to the target (15.3.4.5.3) *)
+    ("kind:bound", "3,true,false,1,function", 3) ].
 
 Definition verdict (c : case) : Z * Z :=
   match c with
